@@ -53,6 +53,12 @@ def _unit_worker(job):
                     res = {'status': 'unknown', 'backend': '', 'seconds': 0.0, 'reason': 'skipped: clause already not discharged on 3 paths of this unit'}
                 else:
                     res = solve_one((idx, to_smt2(ob.hyps, g), timeout_ms, use_cvc5))
+                    if res['status'] != 'discharged' and getattr(ob, 'hyps_full', None) is not None:
+                        # the clause was posed with a filtered hypothesis set: only a verdict on the FULL set counts
+                        res2 = solve_one((idx, to_smt2(ob.hyps_full, g), timeout_ms, use_cvc5))
+                        res2['seconds'] += res['seconds']
+                        res2['backend'] = (res2['backend'] + '+allhyps') if res2['backend'] else ''
+                        res = res2
                     if res['status'] != 'discharged':
                         nfail[ob.name] = nfail.get(ob.name, 0) + 1
                 idx += 1
@@ -86,8 +92,9 @@ def load_known_findings():
 
 
 def write_evidence(pid, ev):
-    os.makedirs(os.path.join(ROOT, 'evidence'), exist_ok=True)
-    p = os.path.join(ROOT, 'evidence', pid + '.json')
+    d = os.environ.get('VERIF_EVIDENCE_DIR') or os.path.join(ROOT, 'evidence')
+    os.makedirs(d, exist_ok=True)
+    p = os.path.join(d, pid + '.json')
     with open(p, 'w') as f:
         json.dump(ev, f, indent=1, sort_keys=True, default=str)
     return p
